@@ -69,9 +69,10 @@ func newWorld(c pcfg) *world {
 		w.origins[name] = lib.MustOrigin(name, "127.0.0.1:0", &tls.Config{Certificates: []tls.Certificate{cert}}, echo)
 	}
 	mk("valid", w.origCA.ValidLeaf(names...))
-	mk("expired", w.origCA.Leaf(time.Now().Add(-48*time.Hour), time.Now().Add(-24*time.Hour), "expired.test"))
+	// bad origins present leaf + issuer or the leaf alone
+	mk("expired", w.origCA.WithIssuer(w.origCA.Leaf(time.Now().Add(-48*time.Hour), time.Now().Add(-24*time.Hour), "expired.test")))
 	mk("wrongname", w.origCA.ValidLeaf("some-other-name.test"))
-	mk("untrusted", w.otherCA.ValidLeaf("untrusted.test"))
+	mk("untrusted", w.otherCA.WithIssuer(w.otherCA.ValidLeaf("untrusted.test")))
 	mk("notyet", w.origCA.Leaf(time.Now().Add(24*time.Hour), time.Now().Add(48*time.Hour), "notyet.test"))
 	// a trusted certificate, but issued for the upstream proxy's own name, not for the origin's
 	mk("proxyname", w.origCA.ValidLeaf("127.0.0.1", "upstream-proxy.test"))
